@@ -253,8 +253,8 @@ func sqlReadSection(r *tx.Rng, w *tx.W, size int, opt map[string]string) {
 		if kinds[c] == 0 && r.P(1, 4) {
 			coerce[c] = 1 // Int64ToBool
 		}
-		if kinds[c] == 3 && r.P(1, 4) {
-			coerce[c] = 2 // StringToFloat
+		if (kinds[c] == 3 || kinds[c] == 4) && r.P(1, 4) {
+			coerce[c] = 2 // StringToFloat (the text may be delivered as string or as []byte)
 		}
 	}
 	precision := r.PickInt([]int{0, 0, 2, 3})
@@ -280,7 +280,11 @@ func sqlReadSection(r *tx.Rng, w *tx.W, size int, opt map[string]string) {
 					row[c] = strAlphabet[r.Intn(len(strAlphabet))]
 				}
 			case 4:
-				row[c] = []byte(strAlphabet[r.Intn(len(strAlphabet))])
+				if coerce[c] == 2 {
+					row[c] = []byte([]string{"1.5", "2", "-0.25", "2.71828", "-10.00499", "0.333333", "1.005", "x"}[r.Intn(8-btoi(r.P(9, 10)))])
+				} else {
+					row[c] = []byte(strAlphabet[r.Intn(len(strAlphabet))])
+				}
 			}
 		}
 		rows[i] = row
@@ -297,8 +301,12 @@ func sqlReadSection(r *tx.Rng, w *tx.W, size int, opt map[string]string) {
 					w.Line("XF", tx.CFloat(f), tx.Int(precision), tx.CFloat(fixedRef(f, precision)))
 				}
 				// the configured precision applies to coerced text values as well
-				if t, ok := v.(string); ok && coerce[c] == 2 {
-					if f, err := strconv.ParseFloat(t, 64); err == nil {
+				if coerce[c] == 2 {
+					t, isStr := v.(string)
+					if b, isBytes := v.([]byte); isBytes {
+						t, isStr = string(b), true
+					}
+					if f, err := strconv.ParseFloat(t, 64); isStr && err == nil {
 						w.Line("XF", tx.CFloat(f), tx.Int(precision), tx.CFloat(fixedRef(f, precision)))
 					}
 				}
